@@ -199,6 +199,24 @@ def _check_mono(run, mod, Q, cfg, ys):
                 init = _init_value(cfg, tracker, body)
                 init_ok = init is not None and (
                     init < 0 if init_strict else init <= 0)
+                if init is None and _starts_none(cfg, tracker, body):
+                    # `last = None` ... `if last is not None and v <= last`:
+                    # nothing to compare the first answer with; the guard is
+                    # skipped exactly while the tracker is still None
+                    nn = [p for (l, p) in tn.pred if p.kind == "test" and (
+                        (l == "T" and unparse(p.ast) in (
+                            "%s is not None" % tracker, tracker)) or
+                        (l == "F" and unparse(p.ast) ==
+                         "%s is None" % tracker))]
+                    if nn:
+                        init = "None (guard skipped while None)"
+                        init_ok = True
+                        skip_edge = "F" if unparse(nn[0].ast) != \
+                            "%s is None" % tracker else "T"
+                        ef = [m for (l, m) in nn[0].succ if l == skip_edge]
+                        upd = upd and all(_must_assign(
+                            m, head, tracker, vexpr) for m in ef)
+                        extra_guards.add(nn[0].id)
             msg = []
             if not raises:
                 msg.append("the out-of-order branch does not raise")
@@ -369,6 +387,15 @@ def _init_value(cfg, tracker, body):
     return vals[0]
 
 
+def _starts_none(cfg, tracker, body):
+    vals = [n.ast.value for n in cfg.reachable if n.id not in body and
+            n.kind == "stmt" and isinstance(n.ast, ast.Assign) and any(
+                isinstance(t, ast.Name) and t.id == tracker
+                for t in n.ast.targets)]
+    return len(vals) == 1 and isinstance(
+        vals[0], ast.Constant) and vals[0].value is None
+
+
 def _cycle_avoiding(head, body, gids, ynode):
     """Is there a cycle head->...->head inside body through a yield that
     avoids all guard nodes?"""
@@ -490,7 +517,10 @@ def _check_dt_cases(run, mod, Q, cfg, ys, first):
         v2 = "%s.raw_value.as_integer" % y.target
         P2 = pred.Parser(pred.lin_of({v2: "v"}))
         try:
-            got2 = outcomes(y.node, heads, v2, P2)
+            # one poll step: from this answer to the next question (the
+            # loop may be rotated: a priming read in front, the re-read at
+            # the bottom of the body)
+            got2 = outcomes(y.node, {y_.node.id for y_ in ys}, v2, P2)
         except pred.Unrecognised as e:
             raise AnalysisError("R-DT-CASES: a test on the polled answer is "
                                 "outside the comparison forms read: %s" % e)
@@ -799,6 +829,16 @@ def _check_setgroups(run, world, mod, S, cfg, ys, fn):
     qg = [y for y in ys if y.is_from and y.fn and y.fn[1].name ==
           "QueryGroups"]
     run.floor("SetGroups add/remove yields", len(adds) + len(rems), 2)
+    if not qg and any(_is(y, "QueryGroupsZeroToSeven") or
+                      _is(y, "QueryGroupsEightToFifteen") for y in ys):
+        # the read-back written out in place of `yield from QueryGroups()`:
+        # its answer checks become conditions of every later command, which
+        # this rule's formulas over the addressing mode do not separate
+        raise AnalysisError(
+            "SetGroups reads the current membership with the group queries "
+            "written out in place (no `yield from QueryGroups(...)`); the "
+            "rule cannot tell the read-back's own answer checks from "
+            "conditions on what is written")
     ok = len(qg) == 1 and qg[0].call and unparse(qg[0].call.args[0]) == addr
     existing = None
     if ok:
